@@ -112,3 +112,23 @@ Theorem C01_holds_child_sound : forall k child,
   forall p, a <= p <= b -> label_at child c p = label_at (if w then c_pb k else c_pa k) c p.
 Proof. exact holds_child_sound. Qed.
 Print Assumptions C01_holds_child_sound.
+
+(* The same, from what numpy guarantees about the RAW draws of one _simulate call (C02_Draws: the
+   choice of parents, the re-draw loop, the boolean-mask selection and stable sort of recombination
+   points are model functions, [decode_gen]): under the contract (indices in range, no admixed draw
+   without a previous generation, the mask never selects a first marker or a padding cell) and on a
+   map with increasing positions and non-decreasing cM, every child of the generation is the mosaic of
+   its two parental haplotypes - which are two different haplotypes of the previous generation. *)
+From HV Require Import C02_Coords C02_Draws C01_MosaicDraws.
+Theorem C01_generation_mosaic_from_contract :
+  forall chroms coords n g prev,
+  incr chroms -> (forall c, In c chroms -> 0 <= c) -> chroms <> [] ->
+  length coords = length chroms -> Forall map_ok coords ->
+  (forall i e, nth_error (ends_of coords) i = Some e -> fst e = MAXC) ->
+  gen_tiles chroms prev -> gen_contract chroms coords n (lenZ prev) g ->
+  exists ds out, decode_gen chroms coords g = Some ds /\
+    sim_generation chroms (ends_of coords) prev ds = Ok out /\
+    Forall2 (is_mosaic chroms (ends_of coords) prev) ds out /\
+    Forall (fun d => d_pop d = 0 -> d_ha d <> d_hb d) ds.
+Proof. exact generation_mosaic_from_contract. Qed.
+Print Assumptions C01_generation_mosaic_from_contract.
